@@ -28,6 +28,7 @@ type StrV struct {
 	B      []*Term
 	Opaque bool
 	Note   string
+	MinLen int // opaque strings: a lower bound on the length (1 = known to be non-empty)
 }
 
 type PtrV struct {
@@ -340,6 +341,9 @@ func (e *Engine) mergeVal(g *Term, a, b Value) (Value, bool) {
 			return nil, false
 		}
 		if x.Opaque {
+			if y.MinLen < x.MinLen {
+				x.MinLen = y.MinLen
+			}
 			return x, true
 		}
 		if len(x.B) != len(y.B) {
@@ -388,7 +392,10 @@ func (e *Engine) mergeVal(g *Term, a, b Value) (Value, bool) {
 		if !ok || x.Obj != y.Obj || x.Off != y.Off || x.Cap != y.Cap || x.Nil != y.Nil || !pathEq(x.Path, y.Path) {
 			return nil, false
 		}
-		x.Len = e.tc.Ite(g, x.Len, y.Len)
+		if x.Len != y.Len {
+			// slices of different lengths are different shapes (appends and copies need concrete lengths)
+			return nil, false
+		}
 		return x, true
 	case StructV:
 		y, ok := b.(StructV)
